@@ -119,6 +119,36 @@ def gen_case(cid, kind, rng, thorough):
                 srcs = live + mine
                 if gc_thread and r < 0.5:
                     lines[t].append("PGC")
+                elif rng.random() < 0.22:
+                    # the remaining operation families (restrict, apply-and-quantify, substitution with a
+                    # substitution object made by the thread itself, ZBDD set operations, counting, cube picking)
+                    d = base; base += 1
+                    q = rng.random()
+                    if kind == "zbdd":
+                        if q < 0.45:
+                            lines[t].append(f"{rng.choice(['UNION', 'INTSEC', 'DIFF'])} h{d} h{rng.choice(srcs)} h{rng.choice(srcs)}")
+                        elif q < 0.7:
+                            lines[t].append(f"{rng.choice(['SUBSET0', 'SUBSET1', 'CHANGE'])} h{d} h{rng.choice(srcs)} {rng.randrange(nv)}")
+                        else:
+                            pos = rng.randrange(1 << nv)
+                            lines[t].append(f"RESTRICT h{d} h{rng.choice(srcs)} {pos} {rng.randrange(1 << nv) & ~pos}")
+                        mine.append(d); new_live.append((t, d))
+                    elif q < 0.3:
+                        pos = rng.randrange(1 << nv)
+                        lines[t].append(f"RESTRICT h{d} h{rng.choice(srcs)} {pos} {rng.randrange(1 << nv) & ~pos}")
+                        mine.append(d); new_live.append((t, d))
+                    elif q < 0.6:
+                        lines[t].append(f"{rng.choice(['AEX', 'AFA', 'AUQ'])} {rng.choice(BOOL_OPS)} h{d} h{rng.choice(srcs)} h{rng.choice(srcs)} {rng.randrange(1 << nv)}")
+                        mine.append(d); new_live.append((t, d))
+                    elif q < 0.85:
+                        sid = d      # a fresh id per substitution object (the driver resolves operations at the next snapshot)
+                        vs = rng.sample(range(nv), rng.randrange(1, 3))
+                        lines[t].append(f"MKSUBST {sid} " + " ".join(f"{v}=h{rng.choice(srcs)}" for v in vs))
+                        lines[t].append(f"SUBST h{d} h{rng.choice(srcs)} {sid}")
+                        mine.append(d); new_live.append((t, d))
+                    else:
+                        base -= 1
+                        lines[t].append(rng.choice([f"SAT h{rng.choice(srcs)} {nv} nat", f"PICK h{rng.choice(srcs)} 0"]))
                 elif r < 0.55:
                     d = base; base += 1
                     lines[t].append(f"{rng.choice(BOOL_OPS)} h{d} h{rng.choice(srcs)} h{rng.choice(srcs)}")
